@@ -1,6 +1,10 @@
 package main
 
-import "fmt"
+import (
+	"fmt"
+
+	"golang.org/x/tools/go/ssa"
+)
 
 func dumpFormats(l *Loaded, v2 *Loaded) {
 	show := func(ld *Loaded, rel, name string, decode bool) {
@@ -40,5 +44,37 @@ func dumpFormats(l *Loaded, v2 *Loaded) {
 	if v2 != nil {
 		show(v2, "", "EncodeBytes", false)
 		show(v2, "", "*Node.writeHashBytes", false)
+	}
+}
+
+func dumpTables(l *Loaded) {
+	// recursiveSetLeaf
+	fn := l.Func("", "*MutableTree.recursiveSetLeaf")
+	for _, ord := range []int{-1, 0, 1} {
+		env := &tableEnv{l: l, flag: map[string]int{"skipFastStorageUpgrade": 1}, cmp: func(a, b string) (int, bool) {
+			if a == "param:key" && b == "param:node.key" {
+				return ord, true
+			}
+			return 0, false
+		}}
+		run := runTable(fn, env, func(call *ssa.Call) string { return "" })
+		if run.ret == nil {
+			fmt.Println("setLeaf", ord, "stuck", l.ipos(run.stuck))
+			continue
+		}
+		fmt.Println("setLeaf", ord, literalRoles(l, retVal(run.ret, 0), "tree"), roleOf(l, retVal(run.ret, 1), "tree", 0))
+	}
+	for _, name := range []string{"*Node.calcHeightAndSize", "*MutableTree.rotateRight", "*MutableTree.rotateLeft"} {
+		f := l.Func("", name)
+		allInstrs(f, func(in ssa.Instruction) {
+			if st, ok := in.(*ssa.Store); ok {
+				if fa, ok := st.Addr.(*ssa.FieldAddr); ok {
+					fmt.Println(name, "store", roleOf(l, fa, f.Params[0].Name(), 0), "=", roleOf(l, st.Val, f.Params[0].Name(), 0))
+				}
+			}
+		})
+		for _, r := range returnsOf(f) {
+			fmt.Println(name, "return", roleOf(l, retVal(r, 0), f.Params[0].Name(), 0))
+		}
 	}
 }
